@@ -11,7 +11,7 @@ from . import common
 ID = 'C06'
 LEVEL = 'fault_enumeration'
 RUNS = {'quick': 320, 'thorough': 1600}
-CHUNK = 4
+CHUNK = 1
 RECHECK_MOD = 53
 PROBES = ['cut_in_header', 'cut_in_threadmap', 'cut_in_stackshot_scan', 'cut_in_chunkhdr', 'cut_in_record',
           'cut_at_record_boundary', 'cut_in_block', 'cut_in_pad', 'eio_fired', 'count_limit', 'v2', 'v3',
@@ -127,7 +127,18 @@ def _region(layout, k):
 
 def _pick_cuts(scn, layout, n):
     if scn['cuts'] == 'all':
-        return list(range(0, n + 1))
+        if n <= 8000:
+            return list(range(0, n + 1))
+        # a big file: every offset outside the record area, and inside it every offset of a record boundary +-2 plus a stride
+        keep = set([0, n])
+        step = (n + 7999) // 8000
+        for name, s, e in layout:
+            if name == 'record':
+                keep.update((s - 2, s - 1, s, s + 1, s + 2, s + 63))
+                keep.update(range(s, e, step))
+            else:
+                keep.update(range(s, e + 1))
+        return sorted(c for c in keep if 0 <= c <= n)
     from ..rng import Rng
     r = Rng(scn.get('cut_seed', 0))
     cuts = set([0, n])
